@@ -19,16 +19,18 @@ func init() {
 		ID: "RS", Props: []string{"C01"}, Min: 8,
 		Doc: `per-record state is reset for every record: in the GenBank and EMBL chunk parsers every local declared outside the line loop whose value reaches the emitted
 record (arguments of NewBioSequence, annotation stores, SetFeatures in the block that emits on '//') must be re-initialised between two records: assigned in the emit block,
-or assigned (for buffers: replaced or Reset) in a clause guarded by a line type that is mandatory in a well-formed record (oracle: GenBank LOCUS/DEFINITION/SOURCE/FEATURES/
-ORIGIN; EMBL ID/DE/OS/SQ). A value set only under an optional line (e.g. the /db_xref="taxon:…" qualifier) and never reset is inherited by the next record, and what the next
+or assigned (for buffers: replaced or Reset) in a clause guarded by the line type that starts a record (GenBank LOCUS; EMBL ID — the other line types are not required by
+the parsers, so nothing may rely on them: a record without SOURCE / OS line reported the organism of the previous record). A value set only under an optional line (e.g. the /db_xref="taxon:…" qualifier) and never reset is inherited by the next record, and what the next
 record inherits depends on where the chunk was cut.`,
 		Run: runRS,
 	})
 }
 
 var rsMandatory = map[string][]string{
-	"GenbankChunkParser": {"LOCUS", "DEFINITION", "SOURCE", "FEATURES", "ORIGIN"},
-	"EmblChunkParser":    {"ID   ", "DE   ", "OS   ", "SQ   "},
+	// only the line that starts a record is certain to be there: a hand-made or third-party record lacking its SOURCE / OS line
+	// is accepted by the parsers, and inherited the organism of the record before it — or of nothing, when a chunk was cut there
+	"GenbankChunkParser": {"LOCUS"},
+	"EmblChunkParser":    {"ID   "},
 }
 
 func runRS(c *Ctx, s *Sink) {
